@@ -89,7 +89,7 @@ type ContractSet struct {
 	// Immutable: struct / map types (by typeKey) whose objects may only be written while they are
 	// fresh (allocated by the writing function), except in the listed functions
 	Immutable map[string]*TypeInv
-	Order    []string
+	Order     []string
 }
 
 func newContractSet() *ContractSet {
@@ -474,8 +474,22 @@ type SExpr struct {
 
 var forallRe = regexp.MustCompile(`^(forall|exists)\s+([A-Za-z_][A-Za-z0-9_]*)\s+in\s+\[`)
 
+// forall x in T: body   -- quantification over all values of a Go type (string keys, objects)
+var forallTypeRe = regexp.MustCompile(`^(forall|exists)\s+([A-Za-z_][A-Za-z0-9_]*)\s+in\s+([*A-Za-z_][A-Za-z0-9_.*]*)\s*:\s*(.*)$`)
+
 func parseSpec(src string) (*SExpr, error) {
 	s := strings.TrimSpace(src)
+	if m := forallTypeRe.FindStringSubmatch(s); m != nil {
+		body, err := parseSpec(m[4])
+		if err != nil {
+			return nil, err
+		}
+		te, err := parser.ParseExpr(m[3])
+		if err != nil {
+			return nil, fmt.Errorf("bad quantifier type in %q: %v", src, err)
+		}
+		return &SExpr{Kind: m[1] + "T", Var: m[2], Go: te, Body: body, Src: src}, nil
+	}
 	if m := forallRe.FindStringSubmatch(s); m != nil {
 		rest := s[len(m[0]):]
 		// find "):" closing the range at depth 0
